@@ -33,6 +33,9 @@ def WTy (P : TyParams) (t : ObjTy) : Prop :=
 /-- ... and the length is known and gives the composite type's size -/
 def GoodTy (P : TyParams) (t : ObjTy) : Prop := WTy P t ∧ t.unknownLen = false ∧ t.size = P.size
 
+instance (P : TyParams) (t : ObjTy) : Decidable (WTy P t) := by unfold WTy; infer_instance
+instance (P : TyParams) (t : ObjTy) : Decidable (GoodTy P t) := by unfold GoodTy; infer_instance
+
 theorem wty_complete {P : TyParams} {t : ObjTy} (h : WTy P t) : WTy P (completeTy t) := by
   unfold completeTy
   split
